@@ -418,6 +418,30 @@ pub mod widev {
         )*};
     }
     prim_int!(i32, i64, u32, u64, isize);
+    #[cfg(feature = "wide2-types")]
+    prim_int!(u8, i8, u16, i16, u128, i128, usize);
+    #[cfg(feature = "wide2-types")]
+    impl Val for num_rational::Rational32 {
+        const NAME: &'static str = "rational32";
+        fn gen(rng: &mut Rng, k: usize) -> Self {
+            let sp: [(i32, i32); 8] = [(0, 1), (1, 1), (-1, 1), (1, 2), (-7, 3), (1000, 1), (1, 1000), (355, 113)];
+            if k < sp.len() {
+                return num_rational::Rational32::new(sp[k].0, sp[k].1);
+            }
+            num_rational::Rational32::new((rng.next() % 2001) as i32 - 1000, (rng.next() % 999) as i32 + 1)
+        }
+    }
+    #[cfg(feature = "wide2-types")]
+    impl Val for num_rational::Rational {
+        const NAME: &'static str = "rational";
+        fn gen(rng: &mut Rng, k: usize) -> Self {
+            let sp: [(isize, isize); 8] = [(0, 1), (1, 1), (-1, 1), (1, 2), (-7, 3), (1000, 1), (1, 1000), (355, 113)];
+            if k < sp.len() {
+                return num_rational::Rational::new(sp[k].0, sp[k].1);
+            }
+            num_rational::Rational::new((rng.next() % 2001) as isize - 1000, (rng.next() % 999) as isize + 1)
+        }
+    }
 
     impl Enc for BigInt {
         fn enc(&self) -> String {
